@@ -1,2 +1,73 @@
+"""R-FLUSH: what was staged is flushed before success is reported.
+
+For every function that creates a Packer / BlobCopier / Indexer and keeps it (does not return it or store it in a
+returned struct): every path to an Ok return passes the matching finalize() with its result propagated. The worker
+status is really awaited inside finalize (Packer::finalize / Actor::finalize receive from the finish channel).
+One confirmed exception: prune_repository's early "nothing to do" return, where the only staged entries are add_remove
+marks of packs no index references (dropping them loses nothing; the next run finds them again)."""
+import re
+from rules.common import *
+from rules.order import ok_cut
+
+OWNED = [
+    (r"^rustic_core::blob::packer::Packer::<BE>::new$", r"^rustic_core::blob::packer::Packer::<BE>::finalize$", "Packer"),
+    (r"^rustic_core::blob::packer::BlobCopier::<BE>::new$", r"^rustic_core::blob::packer::BlobCopier::<BE>::finalize$|^rustic_core::commands::copy::copy_blobs$", "BlobCopier"),
+    (r"^rustic_core::index::indexer::Indexer::<BE>::(new|new_unindexed)$", r"^rustic_core::index::indexer::Indexer::<BE>::finalize$", "Indexer"),
+]
+EXC = {("commands::prune::prune_repository", "Indexer"): "early 'nothing to do' return: only add_remove marks of unindexed packs are staged (documented exception)"}
+
+
 def run(ctx, rep, rule):
-    pass
+    prog = ctx.prog
+    rep.rule(rule, "every owner of a packer/copier/indexer finalizes it (result propagated) on every path to an Ok return")
+    n = 0
+    for b in prog.by_crate["rustic_core"]:
+        if b.is_closure():
+            continue
+        for (newrx, finrx, kind) in OWNED:
+            news = [(bb, t) for bb, t in b.calls() if "callee" in t and re.search(newrx, callee(t))]
+            if not news:
+                continue
+            # kept locally? the created value must not flow into the return value / a returned aggregate
+            escapes = False
+            for (bb, t) in news:
+                aliases, consumers, ret = flow.forward_aliases(b, t["dest"][0], limit=120)
+                if ret:
+                    escapes = True
+                # passed into another constructor (e.g. BlobCopier::new(packer..), Archiver fields): ownership moves on
+                for (cb, ct, ai) in consumers:
+                    if re.search(r"::new$|::into_shared$|Arc::<T>::new$|RwLock::<T>::new$", callee(ct)) and 0 in flow.forward_aliases(b, ct["dest"][0], limit=120)[0]:
+                        escapes = True
+            if escapes:
+                continue
+            fam = [b]
+            fins = [(bb, t) for bb, t in b.calls() if "callee" in t and re.search(finrx, callee(t))]
+            n += 1
+            k = fn_key(b)
+            if not fins:
+                rep.check(rule, f"{k}/{kind}", (k, kind) in EXC, where=b.loc(), what=f"{k} creates a {kind} but never finalizes it: staged data is not flushed")
+                continue
+            cut = []
+            allprop = True
+            for (bb, t) in fins:
+                kd, edges = ok_cut(b, bb)
+                if kd not in ("?", "return"):
+                    allprop = False
+                cut += edges
+            okret = [bi for bi, blk in enumerate(b.blocks) for s in blk["s"] if s[0] == "=" and s[1] == [0] and s[2][0] == "agg" and s[2][1][0] == "adt" and s[2][1][2] == "Ok"]
+            # only Ok returns that come AFTER the creation count (earlier validation returns are irrelevant)
+            reach = set()
+            for (bb, t) in news:
+                reach |= b.reachable_from(bb, cut_edges=cut)
+            bad = [r for r in okret if r in reach]
+            ok = allprop and not bad
+            why = EXC.get((k, kind))
+            if bad and why and len(bad) == 1:
+                rep.check(rule, f"{k}/{kind}", True, where=b.loc(), what=f"{k}: {kind} finalized before success, except: {why}", nontrivial=False)
+            else:
+                rep.check(rule, f"{k}/{kind}", ok, where=b.loc(), what=f"{k}: every Ok return after creating the {kind} passes its finalize() with the result propagated" if ok else
+                          f"{k}: can return Ok without a successful {kind}::finalize ({'result not propagated' if not allprop else 'path bypassing finalize'}): staged blobs/index entries may never reach storage")
+    rep.floor(rule, "owners of packers/copiers/indexers", n, 6)
+    # finalize really waits for the worker
+    from rules import C13
+    C13.joined(ctx, rep, rule)
